@@ -1268,7 +1268,8 @@ static void move_case_return()
          // Find the end of the return statement
          while (pc->IsNot(CT_SEMICOLON))
          {
-            if (  pc->Is(CT_CASE)
+            if (  pc->IsNullChunk()
+               || pc->Is(CT_CASE)
                || pc->Is(CT_BRACE_CLOSE))
             {
                // This may indicate a semicolon was missing in the code to format.
@@ -1597,7 +1598,8 @@ static void process_if_chain(Chunk *br_start)
 
       if (pc->Is(CT_ELSEIF))
       {
-         while (  pc->IsNot(CT_VBRACE_OPEN)
+         while (  pc->IsNotNullChunk()
+               && pc->IsNot(CT_VBRACE_OPEN)
                && pc->IsNot(CT_BRACE_OPEN))
          {
             pc = pc->GetNextNcNnl(E_Scope::PREPROC);
